@@ -146,7 +146,7 @@ func isEdge(k int) bool {
 func TestC06(t *testing.T) {
 	c := begin(t, "C06")
 	defer c.end()
-	c.rec.F.Rule = "v3: objects built by field assignment — every version x base x temporal combination (518,400; base and temporal level) and the effective-metric environmental domain of C03 layer 1 (quick: 331,776 x 4 temporal settings; thorough: all 33,177,600) plus a seeded affine sample of the version x base x environmental product (quick 2,000,000, thorough 20,000,000); v2: base x temporal (73,629) and base x environmental sweep with the temporal group absent (quick, 1,399,680) or the complete 141 million product (thorough). At every level of every object: score == k/10 exactly for an integer 0<=k<=100 (one decimal digit when printed), Severity() == rating band of k by integer comparison; v3 report score fields on a 1/4096 subsample. Non-trivial = an observation whose score lies on a band edge (0.0, 0.1, 3.9, 4.0, 6.9, 7.0, 8.9, 9.0, 10.0); enumerated points are distinct by construction."
+	c.rec.F.Rule = "v3: objects built by field assignment — every version x base x temporal combination (518,400; base and temporal level) and the effective-metric environmental domain of C03 layer 1 (quick: 331,776 x 4 temporal settings; thorough: all 33,177,600) plus a seeded pseudo-random (bijective) sample of the version x base x environmental product (quick 2,000,000, thorough 20,000,000); v2: base x temporal (73,629) and base x environmental sweep with the temporal group absent (quick, 1,399,680) or the complete 141 million product (thorough). At every level of every object: score == k/10 exactly for an integer 0<=k<=100 (one decimal digit when printed), Severity() == rating band of k by integer comparison; v3 report score fields on a 1/4096 subsample. Non-trivial = an observation whose score lies on a band edge (0.0, 0.1, 3.9, 4.0, 6.9, 7.0, 8.9, 9.0, 10.0); enumerated points are distinct by construction."
 	c.rec.F.Assumptions = []string{"the v2 environmental exception is decided by the exact model of C05 (negative equation admits that negative tenth or 0)", "-0.0 is accepted as 0.0 (v2 returns it for zero-impact vectors)"}
 	var att attained
 	var evals, nt int64
@@ -234,10 +234,9 @@ func TestC06(t *testing.T) {
 	// ---- v3 environmental: sample of the full product ---------------------------------------
 	{
 		total := uint64(pick(2000000, 20000000))
-		const a = 1000000007
-		b := mix(uint64(seed), 0xc06) % layer2Space
+		key := mix(uint64(seed), 0xc06)
 		for k := uint64(shard); k < total && nviol == 0; k += uint64(shards) {
-			n := (a*k + b) % layer2Space
+			n := permIndex(k, layer2Space, key)
 			f := fromLayer2Index(n)
 			h := mix(uint64(seed), n)
 			f.T = [3]int{int(h % 5), int((h >> 8) % 5), int((h >> 16) % 4)}
